@@ -5,6 +5,8 @@
 import vf, os, re
 
 ALLOWED = [r"^guard variable for nfl::poly<.*>::(gmp|base)$", r"^nfl::poly<.*>::(gmp|base)$",
+           # bit-reversal table of the non-unrolled permutation (degree > PERMUT_LIMIT_UNROLL): static initialisation only, digested with the tables
+           r"^(guard variable for )?nfl::details::permut<\d+ul, false>::P$",
            # the random generator's state is C18's subject (synchronised there), not touched by the operations of this property
            r"^guard variable for nfl::fastrandombytes\(unsigned char\*, unsigned long long\)::seeded$", r"^nfl::nonce_counter$", r"^nfl::fd$", r"^nfl::key$"]
 
